@@ -12,7 +12,7 @@ Definition show_view (off : nat) (r : res (option slice)) : string :=
   match r with
   | Ok (Some x) => dec_of_nat off ++ "," ++ dec_of_nat (len x)
   | Ok None => "nil"
-  | Err _ => "err"
+  | Err _ => "err:any"
   | Panic => "panic"
   | Fuel => "fuel"
   end.
@@ -42,7 +42,7 @@ Definition show_host (h : option (bytes * bytes)) : string :=
 Definition show_parse (c : cfg) (s : slice) : string :=
   match parse c s with
   | Ok f => show_frame s f
-  | Err _ => "err"
+  | Err _ => "err:any"
   | Panic => "panic"
   | Fuel => "fuel"
   end.
@@ -51,7 +51,7 @@ Definition show_parse (c : cfg) (s : slice) : string :=
 Definition show_parse_full (c : cfg) (s : slice) : string :=
   match parse c s with
   | Ok f => join " " [ show_frame s f; "sm:6,6"; "dm:0,6"; show_host (f_host f) ]
-  | Err _ => "err"
+  | Err _ => "err:any"
   | Panic => "panic"
   | Fuel => "fuel"
   end.
@@ -82,7 +82,7 @@ Definition show_ref_view (n : nat) (o : option nat) : string :=
 
 Definition show_ref (n : nat) (r : ref_result) : string :=
   match r with
-  | RErr => "err"
+  | RErr => "err:any"
   | ROk r =>
       join " "
         [ "ok"; dec_of_N (r_id r)
@@ -110,7 +110,7 @@ Definition show_alias (c : cfg) (s : slice) : string :=
                      ; "U:" ++ show_view (f_offU f) (frame_udp s f)
                      ; "T:" ++ show_view (f_offT f) (frame_tcp s f)
                      ; "P:" ++ show_view (f_offP f) (frame_payload s f) ]
-  | Err _ => "err"
+  | Err _ => "err:any"
   | Panic => "panic"
   | Fuel => "fuel"
   end.
@@ -118,7 +118,7 @@ Definition show_alias (c : cfg) (s : slice) : string :=
 Definition show_alias_ref (b : bytes) : string :=
   let n := List.length b in
   match ref_decode b with
-  | RErr => "err"
+  | RErr => "err:any"
   | ROk r => join " " [ "ok"; "sm@6"; "dm@0"
                       ; "E:" ++ show_ref_view n (Some 0%nat)
                       ; "4:" ++ show_ref_view n (r_ip4 r)
